@@ -44,6 +44,7 @@ RULE += "; the explicit executor may be a concurrent.futures.Executor of the cal
 RULE += "; built-in exception classes as the function's outcome; the call may be handed to create_task / ctx.spawn instead of being awaited in place"
 RULE += '; exception instances as arguments and results; concurrent.futures exception classes raised by the function'
 RULE += '; an earlier call from the same place that changed a context variable; falsy raised exceptions'
+RULE += '; a bound asynchronous method handed to another helper (enumerated); arguments whose repr raises during the call'
 LEVEL_TEXT = (
     "Differential: what the undecorated function receives, returns or raises is compared with the decorated call "
     "(identity for exceptions); inside the function the thread identity, a loop heartbeat and the caller's context "
@@ -115,6 +116,22 @@ _BUILTIN_RAISED = {
 }
 
 
+_REPR_ARMED = [False]
+
+
+class _BadRepr:
+    def __repr__(self):
+        if _REPR_ARMED[0]:
+            raise RuntimeError("repr() refused")
+        return "<BadRepr>"
+
+    def __eq__(self, other):
+        return type(other) is _BadRepr
+
+    def __hash__(self):
+        return 11
+
+
 class FnErr(Exception):
     pass
 
@@ -166,6 +183,10 @@ def make_value(spec):
         return P.A(v=spec["x"])
     if k == "obj":
         return object()
+    if k == "badrepr":
+        # an argument whose repr() refuses to work while the call is being made (a closed handle, a half-initialised object):
+        # the decorators pass arguments on, they have no business formatting them
+        return _BadRepr()
     if k == "excinst":
         # an exception INSTANCE as a plain value (a result-or-error record, an argument to report): returned / passed on,
         # never raised by a wrapper
@@ -302,6 +323,64 @@ def run_stack(case) -> Outcome:
     return out
 
 
+def run_bound(case) -> Outcome:
+    """a BOUND @asynchronous method handed to another helper (wrap_async / traced / retry / timeout applied to `obj.method`):
+    the bound object is an asynchronous function like any other - the outer helper awaits it, retries it, records its
+    outcome (real event loop: `asynchronous` uses executor threads)"""
+    out = Outcome()
+    outer, fail_first, with_executor = case["outer"], case["fail_first"], case["executor"]
+    calls: list = []
+    executor = ThreadPoolExecutor(1) if with_executor else None
+
+    class Holder:
+        def _m(self, x):
+            calls.append((x, threading.get_ident()))
+            if fail_first and len(calls) == 1:
+                raise FnErr("first call fails")
+            return ("value", x)
+
+        m = asynchronous(executor=executor)(_m) if with_executor else asynchronous(_m)
+
+    obs: dict = {}
+
+    async def main():
+        bound = Holder().m
+        w = {"wrap_async": wrap_async, "traced": traced, "retry": retry(limit=2, catching=FnErr), "timeout": timeout(5)}[outer](bound)
+        loop_thread = threading.get_ident()
+        try:
+            async with ctx.scope("bound"):
+                r = await w(3)
+            obs["result"] = ("ret", r)
+        except BaseException as exc:  # noqa: BLE001 - the observation
+            obs["result"] = ("exc", exc)
+        obs["on_loop_thread"] = [t == loop_thread for _, t in calls]
+
+    try:
+        asyncio.run(main())
+    finally:
+        if executor is not None:
+            executor.shutdown(wait=True)
+    tag = f"{outer}-over-bound-asynchronous-method"
+    kind, val = obs["result"]
+    expect_calls = 2 if (fail_first and outer == "retry") else 1
+    if asyncio.iscoroutine(val) or asyncio.isfuture(val):
+        if asyncio.iscoroutine(val):
+            val.close()
+        out.violate("bound", f"C18.bound/result-is-an-unawaited-awaitable/{tag}", repr(val)[:120])
+    elif fail_first and outer != "retry":
+        if kind != "exc" or not isinstance(val, FnErr):
+            out.violate("bound", f"C18.bound/exception-changed/{tag}", repr(obs["result"])[:200])
+    elif obs["result"] != ("ret", ("value", 3)):
+        out.violate("bound", f"C18.bound/result-changed/{tag}", repr(obs["result"])[:200])
+    if len(calls) != expect_calls:
+        out.violate("bound", f"C18.bound/wrong-number-of-invocations/{tag}", f"{len(calls)} expected {expect_calls}")
+    if any(obs["on_loop_thread"]):
+        out.violate("bound", f"C18.offloop/ran-on-loop-thread/{tag}", "")
+    out.classes = ["bound-asynchronous-method-handed-to-another-helper"]
+    out.nontrivial = True
+    return out
+
+
 class _nullctx:
     def __enter__(self):
         return self
@@ -313,6 +392,8 @@ class _nullctx:
 def run_case(case) -> Outcome:  # noqa: C901, PLR0912, PLR0915
     if case.get("kind") == "stack":
         return run_stack(case)
+    if case.get("kind") == "bound":
+        return run_bound(case)
     out = Outcome()
     dec, form, sig = case["dec"], case["form"], case["sig"]
     method = form in ("method", "unbound")
@@ -542,6 +623,7 @@ def run_case(case) -> Outcome:  # noqa: C901, PLR0912, PLR0915
                     if isinstance(exc, (KeyboardInterrupt, SystemExit)):
                         raise
                 obs["mark_after_first"] = _MARK.get(None)
+            _REPR_ARMED[0] = True
             try:
                 r = target(*a, **kwargs)
                 if outcome["kind"] == "cancelled":
@@ -580,6 +662,8 @@ def run_case(case) -> Outcome:  # noqa: C901, PLR0912, PLR0915
                 if isinstance(exc, (KeyboardInterrupt, SystemExit)):
                     raise
                 obs["result"] = ("exc", exc)
+            finally:
+                _REPR_ARMED[0] = False
             for ev in release.get("events", []):
                 ev.set()
             obs["fp_after"] = fingerprint(labels)
@@ -816,6 +900,7 @@ def strategy(tier):
             st.just({"k": "obj"}),
             st.just({"k": "future"}),
             st.builds(lambda x: {"k": "excinst", "x": x}, st.sampled_from(["ValueError", "TimeoutError", "CancelledError", "FnErr"])),
+            st.just({"k": "badrepr"}),
             st.builds(lambda xs, how: {"k": "iter", "items": xs, "how": how}, st.lists(st.integers(0, 9), min_size=1, max_size=3), st.sampled_from(["iter", "gen"])),
         ),
         lambda ch: st.one_of(
@@ -936,6 +1021,10 @@ def enumerate_cases(tier):
                 # wrappers (objects with an async __call__): those stackings are not supported by construction
                 continue
             yield {"kind": "stack", "outer": outer, "inner": inner, "dur": 1.0}
+    for outer in ("wrap_async", "traced", "retry", "timeout"):
+        for fail_first in (False, True):
+            for executor in (False, True):
+                yield {"kind": "bound", "outer": outer, "fail_first": fail_first, "executor": executor}
 
 
 EXHAUSTIVE_MEANS = "every decorator x {function, method} called with all 34 wrapper-like names as named parameters and as extra keywords; part 'stack': every supported (outer, inner) pair of stacked decorators: timeout over none/timeout/throttle/cache/retry/traced; cache and throttle over none/retry/traced"
